@@ -266,6 +266,10 @@ DIRECTED += [
      ["restrict b0 1"]),
     ("merge-child-into-parent-memory", ["filter 6 2", "flags 0", "src synthetic pack:2 [numa] l2:2 [numa] core:2 pu:1"],
      ["restrict b0+b1 1"]),
+    ("dontmerge-mixed-group-level", ["flags 0", "src synthetic pack:1 core:4 pu:1"],
+     ["group cs=b0+b1", "group cs=b2+b3 dm=1", "restrict b0+b2 0"]),
+    ("dontmerge-mixed-group-level-reversed", ["flags 0", "src synthetic pack:1 core:6 pu:1"],
+     ["group cs=b4+b5 dm=1", "group cs=b0+b1", "group cs=b2+b3", "restrict b0+b2+b4 0"]),
     ("merge-parent-into-child-io", ["filter io 0", "filter 1 2", "flags 0", "src xml " + IO_XML], ["restrict b0+b1 5"]),
     ("merge-child-into-parent-io", ["filter io 0", "filter 6 2", "flags 0", "src xml " + IO_XML], ["restrict b0+b1 5"]),
 ]
@@ -302,6 +306,21 @@ def gen_merge_case(rng):
         a = rng.randrange(1, 10)
         spec = rng.choice(["cs=cs#%d+cs#%d" % (a, a + rng.choice([1, 2, 3, 4])), "cs=cs%s" % small(), "cs=b0+b1+b2+b3", "cs=b0+b1", "cs=b4+b5+b6+b7"])
         calls.append("group %s%s%s" % (spec, rng.choice(["", "", " dm=1"]), rng.choice(["", " kind=%d" % rng.choice([1, 5, 900])])))
+    if rng.random() < 0.3:
+        # a level of sibling Groups of one kind, dont_merge on a subset only (any position), then a restrict
+        # that keeps one PU below each Group: the Group level becomes 1:1 with the level below
+        k = rng.randint(2, 3)
+        order = list(range(k))
+        rng.shuffle(order)
+        dms = [rng.random() < 0.5 for _ in range(k)]
+        if not any(dms):
+            dms[rng.randrange(k)] = True
+        kind = rng.choice([0, 0, 5])
+        for j in order:
+            calls.append("group cs=b%d+b%d%s kind=%d" % (2 * j, 2 * j + 1, " dm=1" if dms[j] else "", kind))
+        for _ in range(rng.randint(0, 3)):
+            calls.append("misc %s -" % small(12))
+        calls.append("restrict %s %d" % ("+".join("b%d" % (2 * j + rng.randrange(2)) for j in range(k)), rng.choice([0, 0, 2, 6])))
     for _ in range(rng.randint(2, 10)):
         calls.append("misc %s %s" % (small(20), rng.choice(["-", "m"])))
     if rng.random() < 0.3:
